@@ -241,8 +241,17 @@ def parse_print_assumptions(out):
         if b.startswith("Closed under the global context"):
             res.append((True, []))
         elif b.startswith("Axioms:"):
-            names = re.findall(r"(?m)^([A-Za-z_][\w.']*)\s*(?::|$)", b[len("Axioms:"):])
-            res.append((False, [n for n in names if n]))
+            body = b[len("Axioms:"):]
+            names = []
+            for m in re.finditer(r"(?ms)^([A-Za-z_][\w.']*)\s*:\s*(.*?)(?=^[A-Za-z_][\w.']*\s*:|\Z)", body):
+                name, typ = m.group(1), " ".join(m.group(2).split())
+                toks = set(re.findall(r"[\w.']+", typ))
+                prim_types = {"float", "PrimFloat.float", "int", "PrimInt63.int", "bool", "float_comparison",
+                              "comparison", "Set", "float_class", "PrimFloat.float_class", "Z", "prod"}
+                if toks and toks <= prim_types:
+                    continue      # a primitive of the kernel (native float / int), not an axiom of ours
+                names.append(name)
+            res.append((False, names))
     return res
 
 
@@ -445,3 +454,172 @@ def load_corpus(prop):
                 obj = json.load(open(os.path.join(d, fn)))
                 out.append(obj["scenario"] if isinstance(obj, dict) and "scenario" in obj else obj)
     return out
+
+
+def parse_triples(out):
+    m = re.search(r"=\s*(\[.*?\])\s*:\s*list\s*\(N\s*\*\s*N\s*\*\s*N\)", out, re.S)
+    if not m:
+        return None
+    nums = [int(x) for x in re.findall(r"\d+", m.group(1).replace("%N", ""))]
+    return [tuple(nums[i:i + 3]) for i in range(0, len(nums), 3)]
+
+
+def eval_steps(wd, name, imports, scenarios_terms, checker, defs="", shards=NPROC, timeout=1500):
+    """scenarios_terms: list (one per scenario) of lists of Gallina step terms.
+    `checker : step -> N` returns a mismatch mask (0 = agrees).
+    Returns list of (scenario index, step index, mask) for the mismatching steps."""
+    n = len(scenarios_terms)
+    if n == 0:
+        return []
+    # balance shards by number of steps
+    order = sorted(range(n), key=lambda i: -len(scenarios_terms[i]))
+    k = max(1, min(shards, n))
+    buckets = [[] for _ in range(k)]
+    loads = [0] * k
+    for i in order:
+        j = loads.index(min(loads))
+        buckets[j].append(i)
+        loads[j] += len(scenarios_terms[i]) + 1
+    jobs = []
+    for sidx, idxs in enumerate(buckets):
+        if not idxs:
+            continue
+        body = [CASE_HEADER, imports, defs, "Definition cases := ["]
+        body.append(";\n".join("(%s, [\n  %s])" % (gn(i), ";\n  ".join(scenarios_terms[i])) for i in idxs))
+        body.append("].")
+        body.append("Eval vm_compute in (failing_steps (%s) cases)." % checker)
+        path = os.path.join(wd, "steps_%s_%d.v" % (name, sidx))
+        with open(path, "w") as f:
+            f.write("\n".join(body) + "\n")
+        jobs.append(path)
+    res = []
+    with concurrent.futures.ThreadPoolExecutor(len(jobs)) as ex:
+        for path, (rc, out) in zip(jobs, ex.map(lambda p: run_coq_file(p, timeout), jobs)):
+            if rc != 0:
+                raise RuntimeError("coqc failed on %s:\n%s" % (path, out[-3000:]))
+            r = parse_triples(out)
+            if r is None:
+                raise RuntimeError("cannot parse coqc output for %s:\n%s" % (path, out[-2000:]))
+            res += r
+    return sorted(res)
+
+
+QUIRK_FLAGS = ["q_init_no_bump", "q_jura_pos_stuck", "q_jura_sell_triggers_inverted", "q_send_dropped_future",
+               "q_limit_panics", "q_liq_ceil_precedence", "q_diff_break", "q_diff_direction_flip",
+               "q_strategy_ncf_self_add", "q_maxdd_last_positions", "q_liq_fail_debit",
+               "q_jura_http_drops_triggered"]
+
+
+def g_quirks(on=()):
+    for f in on:
+        assert f in QUIRK_FLAGS, f
+    return "(mkQuirks %s)" % " ".join(gb(f in on) for f in QUIRK_FLAGS)
+
+
+# which property each quirk flag refutes (flag on => the listed properties' theorems are refuted)
+REFUTES = {
+    "q_init_no_bump": ["C08"],
+    "q_jura_pos_stuck": ["C07", "C01"],
+    "q_jura_sell_triggers_inverted": ["C18"],
+    "q_send_dropped_future": ["C06"],
+    "q_limit_panics": ["C06"],
+    "q_liq_ceil_precedence": ["C10"],
+    "q_diff_break": ["C12"],
+    "q_diff_direction_flip": ["C12"],
+    "q_strategy_ncf_self_add": ["C16"],
+    "q_maxdd_last_positions": ["C15"],
+    "q_liq_fail_debit": ["C04"],
+    "q_jura_http_drops_triggered": ["C20"],
+}
+
+
+def find_valuation(eval_fn, relevant, base):
+    """eval_fn(frozenset of flags on) -> list of mismatches.  Tries the base valuation, then single
+    flips of the relevant flags, then pairs.  -> (matched valuation or None, mismatches under base)"""
+    base = frozenset(base)
+    m0 = eval_fn(base)
+    if not m0:
+        return base, m0
+    import itertools
+    for r in (1, 2, 3):
+        for combo in itertools.combinations(relevant, r):
+            v = base.symmetric_difference(combo)
+            if not eval_fn(v):
+                return v, m0
+    return None, m0
+
+
+def slice_verdict(res, prop, *, eval_fn, relevant, scenarios, traces_steps, oracle, run_witness,
+                  component, theorem_hint, shrink=None):
+    """Common verdict logic (DESIGN 2.4).
+    eval_fn(valuation) -> mismatches [(sc, step, mask)] already projected for this property.
+    oracle(scenario, steps) -> failure description or None  (direct reading of the property).
+    run_witness(scenario) -> steps   (runs a stored scenario on the real code)."""
+    opens, _fixed = known_findings()
+    open_flags = [o["flag"] for o in opens]
+    base = [f for f in open_flags if f in relevant]
+    val, m0 = find_valuation(eval_fn, relevant, base)
+    res.coverage["quirk_valuation_matched"] = sorted(val) if val is not None else None
+    res.coverage["correspondence_mismatches_under_recorded_valuation"] = len(m0)
+    refuting = [] if val is None else [f for f in val if prop in REFUTES.get(f, []) and f not in open_flags]
+    # open known findings that concern this property: re-execute the stored witness, report, pass
+    for o in opens:
+        if o["property"] == prop:
+            w = load_witness(prop, o["flag"])
+            note = ""
+            if w is not None and oracle is not None:
+                st = run_witness(w)
+                f = oracle(w, st)
+                note = " (witness re-executed on the real code: %s)" % ("still fails" if f else "NO LONGER FAILS")
+            res.known.append("KNOWN-FINDING: property=%s %s%s" % (prop, o["text"], note))
+    if val is not None and not refuting:
+        if m0:
+            res.notes.append("code matches the model under valuation %s (not the recorded one); the property's "
+                             "theorems hold for that valuation too" % sorted(val))
+        return
+    # the property is not shown: search for a concrete failing input
+    cands = []
+    for f in (refuting or []):
+        w = load_witness(prop, f)
+        if w is not None:
+            cands.append((w, run_witness(w), "stored witness of %s" % f))
+    for (sc, step, mask) in m0[:50]:
+        cands.append((scenarios[sc], traces_steps[sc], "mismatching scenario %d" % sc))
+    seen = set()
+    for i in range(len(scenarios)):
+        cands.append((scenarios[i], traces_steps[i], "scenario %d" % i))
+    found = None
+    if oracle is not None:
+        for sc, st, why in cands:
+            k = id(sc)
+            if k in seen:
+                continue
+            seen.add(k)
+            f = oracle(sc, st)
+            if f:
+                found = (sc, st, why, f)
+                break
+    broken = dict(
+        matched_valuation=sorted(val) if val is not None else None,
+        refuted_by_flags=refuting,
+        theorem=theorem_hint,
+        first_mismatches=[dict(scenario=a, step=b, aspects=c) for a, b, c in m0[:5]],
+    )
+    if found:
+        sc, st, why, f = found
+        if shrink:
+            sc, f = shrink(sc, f)
+        res.violation(dict(kind="property-fails-on-implementation", component=component, found_in=why,
+                           failure=f, scenario=sc, correspondence=broken), "violation")
+    else:
+        i = m0[0][0] if m0 else 0
+        res.violation(dict(kind="correspondence-or-refuted-theorem", component=component,
+                           no_longer_checks=broken, scenario=scenarios[i] if scenarios else None),
+                      "unproved", no_input=True)
+
+
+def load_witness(prop, flag):
+    p = os.path.join(CORPUS, prop, "witness_%s.json" % flag)
+    if os.path.exists(p):
+        return json.load(open(p))["scenario"]
+    return None
